@@ -41,21 +41,29 @@ def configs(tier, seed):
     return cfgs
 
 
-def build(cfg):
+def build(cfg, upto=None):
+    """-> (decoder, subordinate buses[, adder]); with `upto` only the first `upto` subordinates are added and a function
+    adding the i-th one later is returned as well (used by C19's add-after-elaboration clause)"""
     from amaranth_soc import csr
     from amaranth_soc.memory import MemoryMap
+    subs = []
+
+    def add(dec, i):
+        sc = cfg["subs"][i]
+        sb = csr.Interface(addr_width=sc["aw"], data_width=cfg["dw"], path=(f"sub{i}",))
+        sb.memory_map = MemoryMap(addr_width=sc["aw"], data_width=cfg["dw"])
+        if sc.get("align_to") is not None:
+            dec.align_to(sc["align_to"])
+        dec.add(sb, name=sc["name"], addr=sc["addr"])
+        subs.append(sb)
     try:
         dec = csr.Decoder(addr_width=cfg["aw"], data_width=cfg["dw"], alignment=cfg["align"])
-        subs = []
-        for i, sc in enumerate(cfg["subs"]):
-            sb = csr.Interface(addr_width=sc["aw"], data_width=cfg["dw"], path=(f"sub{i}",))
-            sb.memory_map = MemoryMap(addr_width=sc["aw"], data_width=cfg["dw"])
-            if sc.get("align_to") is not None:
-                dec.align_to(sc["align_to"])
-            dec.add(sb, name=sc["name"], addr=sc["addr"])
-            subs.append(sb)
+        for i in range(len(cfg["subs"]) if upto is None else upto):
+            add(dec, i)
     except (ValueError, TypeError) as e:
         raise Refused(str(e))
+    if upto is not None:
+        return dec, subs, lambda i: add(dec, i)
     return dec, subs
 
 
